@@ -44,6 +44,8 @@ def gen_case(rng, malformed=False, nest=True):
                 cmds.append([11] + enq()[1:])
             else:
                 cmds.append([9, 1, [enq(), enq()], [[10, 1]]])
+        if rng.random() < 0.06:
+            cmds.append([12, rng.randrange(100)])              # set_quit_callback() while the loop is running
         return cmds
 
     bodies = [body() for _ in range(nh)]
@@ -100,6 +102,23 @@ def gen_ties_case(rng):
 def gen_nested_case(rng, prop="C03"):
     """Well-bracketed nesting to depth D: class 10+d opens level d+1; inside each level a worker handler
     enqueues to sources registered at several levels, waits / drains, then closes its level."""
+    if rng.random() < 0.2:
+        # a source registered at level 0 is registered AGAIN inside a nested level; that level is closed; later nested
+        # loops run while the source emits: the outer registration must still hold the signals for level 0
+        src = rng.choice([100, 101, 102])
+        again = [9, rng.choice([1, 1, 2]), [[7, src]], []]              # re-register in the first nested loop(s) only
+        emit = [0, rng.choice([1, 2]), rng.choice(PRIOS), [src]]
+        inner = [again] + [emit for _ in range(rng.randrange(1, 3))] + ([[6, []]] if rng.random() < 0.3 else []) + [[5]]
+        opener = [[4, 11, 0, opt(rng.choice([None, src]))]] + ([emit] if rng.random() < 0.4 else [])
+        bodies = [opener, inner, [[10, 1]], [[10, 2]]]
+        setup = [0, [8, 10, 0, 0], [8, 11, 1, 1], [8, 1, 2, 2], [8, 2, 3, 3], [7, src]]
+        if rng.random() < 0.5:
+            setup.append([12, 5])
+        for _ in range(rng.randrange(2, 5)):
+            setup.append([0, 10, rng.choice([0, 0, 1]), []])             # several nested loops, one after another
+            if rng.random() < 0.5:
+                setup.append(emit)
+        return [FUEL, bodies, [setup, [1]]]
     D = rng.randrange(1, 5)
     bodies = []
     setup = [0]
